@@ -43,3 +43,71 @@ class Determinism(ParseHarness):
             if len(seen) > 1: break
         return len(seen) > 1, {'docs': docs, 'distinct_outputs': [json.loads(k) for k in list(seen)[:2]], 'runs': i + 1}
     def role_of(self, v, conc, detail): return 'nondeterministic output'
+
+# ---------------------------------------------------------------------------------------------- C11
+def is_sym(v): return not isinstance(v, (bool, int, str))
+def rewrite_copy(n, f2):
+    """the canonical representative of the skeleton's structure class: same names, presence, nesting, repetition and presence of character data,
+    but every element written <x></x>, every character-data node a Text node, other contents/values, no comment / PI / declaration / DOCTYPE.
+    out(S) = out(canon(S)) for every S gives, by transitivity, invariance under every rewrite that preserves the structure."""
+    if isinstance(n, Node):
+        c = Node(n.name, present=n.present, empty=False, label=n.label,
+                 attrs=[Attr(a.name, a.present, value=f2.S('%s_a%d_v' % (n.label, i), ['v2', '"x" & <y>'], register=False)) for i, a in enumerate(n.attrs)])
+        c.content = [rewrite_copy(k, f2) for k in n.content]
+        return c
+    if isinstance(n, Text):
+        return Text(present=n.present, cdata=False, content=f2.S(n.label + '_c', ['other', ' '], register=False), label=n.label)
+    if isinstance(n, Noise):
+        return Noise(present=False, kind=0, label=n.label)
+    raise ValueError(n)
+def form_preconditions(n, out):
+    """<x/> can only be written for an element without content"""
+    if isinstance(n, Node):
+        if is_sym(n.empty):
+            for k in n.content: out.append(z3.Implies(n.empty, z3.Not(k.present) if is_sym(k.present) else (not k.present)))
+        for k in n.content: form_preconditions(k, out)
+    return out
+
+class Rewrites(ParseHarness):
+    """C11: rendering the rewritten documents gives the same text"""
+    name = 'rewrites'
+    char_ops_forbidden = False
+    options = ({'preset': 'quick_xml_de'},)
+    def build(self):
+        ParseHarness.build(self)
+        self.fam2 = Family('R_')
+        self.docs2 = [[rewrite_copy(it, self.fam2) for it in d] for d in self.docs]
+        self.formpre = []
+        for d in self.docs + self.docs2:
+            for it in d: form_preconditions(it, self.formpre)
+    def preconditions(self): return list(self.fam.pre) + list(self.fam2.pre) + self.formpre
+    def consts(self): return list(self.fam.consts) + list(self.fam2.consts)
+    def run(self, m):
+        outs = []
+        for docs in (self.docs, self.docs2):
+            root, _ = self.parse_all(m, [X.doc_script(d, 'D%d' % i) for i, d in enumerate(docs)])
+            outs.append(None if root is None else [render(m, root, o) for o in self.options])
+        return {'o1': outs[0], 'o2': outs[1]}
+    def assertions(self, m, out):
+        if out['o1'] is None or out['o2'] is None: return [('both variants parse', False)]
+        return [('output unchanged by rewriting incidental detail (options %d)' % i, SEQ(a, b)) for i, (a, b) in enumerate(zip(out['o1'], out['o2']))]
+    def witnesses(self, m, out): return {'rendered': out['o1'] is not None}
+    def result_summary(self, m, out, model):
+        return {'ok': out['o1'] is not None, 'output': X.mval(model, out['o1'][0]) if out['o1'] else None}
+    def concretise(self, a):
+        am = AssignmentModel(self.consts(), a)
+        return {'docs': [X.serialise(am, d) for d in self.docs], 'rewritten': [X.serialise(am, d) for d in self.docs2]}
+    def validate_sample(self, s, replay):
+        c = self.concretise(s['assignment'])
+        nat = replay.ask({'op': 'render', 'docs': c['docs'], 'options': list(self.options)})
+        if not nat.get('outputs') or nat['outputs'][0] != s['result']['output']: return False, 'output differs on %r' % (c['docs'],)
+        # the remaining clauses of C11 that live inside quick_xml (buffer sizes, expand_empty_elements) are exercised natively on the sampled document
+        for extra in ({'bufcap': 1}, {'bufcap': 7}, {'config': {'expand_empty_elements': True}}):
+            n2 = replay.ask(dict({'op': 'render', 'docs': c['docs'], 'options': list(self.options)}, **extra))
+            if n2.get('outputs') != nat['outputs']: return False, 'native output changes with %r on %r' % (extra, c['docs'])
+        return True, None
+    def native_violation(self, a, replay):
+        c = self.concretise(a)
+        n1 = replay.ask({'op': 'render', 'docs': c['docs'], 'options': list(self.options)})
+        n2 = replay.ask({'op': 'render', 'docs': c['rewritten'], 'options': list(self.options)})
+        return n1.get('outputs') != n2.get('outputs') or not n1.get('outputs'), {'docs': c['docs'], 'rewritten': c['rewritten'], 'out1': n1.get('outputs'), 'out2': n2.get('outputs'), 'steps': [n1.get('steps'), n2.get('steps')]}
